@@ -16,7 +16,7 @@ pub mod seqprops;
 pub fn units(id: &str, tier: &str) -> Option<Vec<Unit>> {
     let thorough = tier == "thorough";
     Some(match id {
-        "C01" => { let mut v = seqprops::c01(thorough); v.push(c15::limits_unit(thorough)); v.push(seqprops::deadline_walk(thorough)); v.push(seqprops::big_batch_expiry_race(thorough)); v.extend(seqprops::core_units(thorough)); v.extend(schedprops::c01_sched(thorough)); v }
+        "C01" => { let mut v = seqprops::c01(thorough); v.push(schedprops::many_subscriptions_unit(thorough)); v.push(c15::limits_unit(thorough)); v.push(seqprops::deadline_walk(thorough)); v.push(seqprops::big_batch_expiry_race(thorough)); v.extend(seqprops::core_units(thorough)); v.extend(schedprops::c01_sched(thorough)); v }
         "C02" => { let mut v = seqprops::c02(thorough); v.extend(seqprops::core_units(thorough)); v.extend(schedprops::c02_sched(thorough)); v }
         "C03" => { let mut v = c03::units(thorough); v.extend(seqprops::core_units(thorough)); v.extend(seqprops::stream_units(thorough)); v }
         "C04" => { let mut v = seqprops::c04(thorough); v.extend(seqprops::core_units(thorough)); v }
